@@ -3,7 +3,7 @@ CHECKS['C06'] = dict(
     design_ref='DESIGN.md 4 C06',
     technique='exhaustive enumeration of (message stream x TCP segmentation x inter-segment delay) against the real Connection.reader_async/reader and an ESTABLISHED Peer._main under a virtual loop; reference framer oracle',
     text='A: every stream of <=2 messages over a 20-message alphabet (7 valid incl. a maximum-size UPDATE, 13 header faults) x every segmentation with <=2 (thorough 3) cuts at all header and body-boundary offsets, '
-         'all uniform chunk sizes 1..32 and coalesced, for both maximum sizes, through both reader implementations; B: 11 streams x cuts x every delay vector over {0, 0.15 s} fed to an established session in the full virtual world (also one where ExaBGP mirrors the peer's AS and so sends its OPEN second) '
+         'all uniform chunk sizes 1..32 and coalesced, for both maximum sizes, through both reader implementations; B: 11 streams x cuts x every delay vector over {0, 0.15 s} fed to an established session in the full virtual world (also one where ExaBGP mirrors the AS of the peer and so sends its OPEN second) '
          '(reads are wrapped in a 0.1 s timeout there). Oracle: same messages/bodies/order as the reference framer; first header fault answered 1/1, 1/2 or 1/3 and nothing after it interpreted.',
     note='Trusted: vt/ref/wire.split_stream; a read returns at most one queued segment. Outside: streams of more than 3 messages, kernel coalescing not expressible as cut lists.',
 )
